@@ -289,13 +289,15 @@ def declare_c21(E):
     declare(E)
     monitor(E)
     E.declare_class("paramiko.buffered_pipe.BufferedPipe", {})
-    E.declare_ghost(out_stream="bytes", err_stream="bytes", err_buffered="bytes", moved_with_lock_held="bool", moves="int")
+    E.declare_ghost(out_stream="bytes", err_stream="bytes", err_buffered="bytes", moved_with_lock_held="bool", moves="int",
+                    fed_unlocked="int")
     IS_OUT = "opaque_id(self) == ghost('stdout_pipe')"
     E.declare_ghost(stdout_pipe="int", stderr_pipe="int")
     E.contract("paramiko.buffered_pipe.BufferedPipe.feed", params={"data": "bytes"}, returns="none",
                ghost={"out_stream": "(ghost('out_stream') + data) if %s else ghost('out_stream')" % IS_OUT,
                       "err_stream": "ghost('err_stream') if %s else (ghost('err_stream') + data)" % IS_OUT,
-                      "err_buffered": "ghost('err_buffered') if %s else (ghost('err_buffered') + data)" % IS_OUT},
+                      "err_buffered": "ghost('err_buffered') if %s else (ghost('err_buffered') + data)" % IS_OUT,
+                      "fed_unlocked": "ghost('fed_unlocked') + (0 if any_lock_held() else 1)"},
                modifies=[], raises={})
     # empty(): hands out everything still buffered (C26 verifies BufferedPipe itself); only used on the stderr pipe here
     E.contract("paramiko.buffered_pipe.BufferedPipe.empty", returns="bytes",
@@ -315,6 +317,7 @@ def declare_c21(E):
                         "ghost('out_stream') == old(ghost('out_stream')) + (m if isbytes(m) else " + STR % (4, 4, 0, 4) + ")"
                         " and ghost('err_stream') == old(ghost('err_stream'))"},
                ghost={"moved_with_lock_held": "any_lock_held()", "moves": "ghost('moves') + 1",
+                      "fed_unlocked": "ghost('fed_unlocked') + (0 if any_lock_held() else 1)",
                       "out_stream": "ghost('out_stream') + (m if isbytes(m) else " + STR.replace("old(m.packet.tell())", "m.packet.tell()") % (4, 4, 0, 4) + ")"},
                returns="none", raises={})
     E.contract(C + "_feed_extended", params={"m": "obj:Message"},
@@ -324,7 +327,10 @@ def declare_c21(E):
                        "(ghost('out_stream') == old(ghost('out_stream')) + (" + STR % (8, 8, 4, 8) + " if old(self.combine_stderr) else b'')"
                        " and ghost('err_stream') == old(ghost('err_stream')) + (b'' if old(self.combine_stderr) else " + STR % (8, 8, 4, 8) + "))"
                        " if unpack32(m.packet.getvalue()[old(m.packet.tell()):old(m.packet.tell()) + 4]) == 1 else"
-                       " (ghost('out_stream') == old(ghost('out_stream')) and ghost('err_stream') == old(ghost('err_stream')))"},
+                       " (ghost('out_stream') == old(ghost('out_stream')) and ghost('err_stream') == old(ghost('err_stream')))",
+                   # reading combine_stderr and delivering to the chosen buffer are one critical section with
+                   # set_combine_stderr's switch-and-move, else data is routed by a stale setting
+                   "routing_decision_and_delivery_under_the_channel_lock": "ghost('fed_unlocked') == old(ghost('fed_unlocked'))"},
                returns="none", raises={"EOFError": "True", "OSError": "True", "SSHException": "True", "struct.error": "True"})
     E.contract(C + "set_combine_stderr", params={"combine": "bool"},
                requires=dict(PIPES, unread_stderr_is_the_tail_of_the_stream=
@@ -336,7 +342,8 @@ def declare_c21(E):
                        "(ghost('out_stream') == old(ghost('out_stream')) + old(ghost('err_buffered')) and len(ghost('err_buffered')) == 0)"
                        " if (combine and not old(self.combine_stderr)) else"
                        " (ghost('out_stream') == old(ghost('out_stream')) and ghost('err_buffered') == old(ghost('err_buffered')))",
-                   # fails on the pinned tree (known finding): the lock is dropped between emptying stderr and feeding stdout
+                   # failed on the pinned tree (repaired, see known_findings.json): the lock was dropped between emptying
+                   # stderr and feeding stdout
                    "the_move_happens_inside_the_critical_section":
                        "implies(ghost('moves') > old(ghost('moves')), ghost('moved_with_lock_held'))",
                },
